@@ -51,6 +51,7 @@ func verifC04Rules() {
 	what := ""
 	sealIt := true
 	keyless := false
+	moveECH := false // reference-list rules: the ECH extension need not be the last outer extension
 	var rec []byte
 
 	switch vInt(1, 14) {
@@ -114,24 +115,32 @@ func verifC04Rules() {
 		inner.exts = append(inner.exts, vExt{0xfd00, shapes[vInt(0, 4)]})
 	case 9:
 		what = "R8b references out of order"
-		lists := [][]uint16{{10, 51}, {51, 13, 10}, {10, 13, 51}}
-		inner.exts = append(inner.exts, vOuterExtensions(lists[vInt(0, 2)]))
+		lists := [][]uint16{{10, 51}, {51, 13, 10}, {10, 13, 51}, {13, 10}}
+		inner.exts = append(inner.exts, vOuterExtensions(lists[vInt(0, 3)]))
+		moveECH = vBool()
 	case 10:
 		what = "R8c repeated reference"
 		lists := [][]uint16{{51, 51}, {51, 10, 10}, {51, 13, 51}, {10, 13, 13}}
 		inner.exts = append(inner.exts, vOuterExtensions(lists[vInt(0, 3)]))
+		moveECH = vBool()
 	case 11:
 		what = "R8d reference absent from the outer hello"
 		t := vUint16()
 		vAssume(t != 0 && t != 43 && t != 51 && t != 10 && t != 13 && t != 0xfe0d && t != 0xfd00)
-		inner.exts = append(inner.exts, vOuterExtensions([]uint16{t}))
+		if vBool() {
+			inner.exts = append(inner.exts, vOuterExtensions([]uint16{t}))
+		} else { // after a reference to what may be the last outer extension
+			inner.exts = append(inner.exts, vOuterExtensions([]uint16{13, t}))
+		}
+		moveECH = vBool()
 	case 12:
 		what = "R8e reference names an ECH extension type"
 		t := uint16(0xfe0d)
 		if vBool() {
 			t = 0xfd00
 		}
-		inner.exts = append(inner.exts, vOuterExtensions([]uint16{51, t}))
+		inner.exts = append(inner.exts, vOuterExtensions([]uint16{[]uint16{51, 13}[vInt(0, 1)], t}))
+		moveECH = vBool()
 	case 13:
 		what = "R8f two ech_outer_extensions markers"
 		inner.exts = append(inner.exts, vOuterExtensions([]uint16{51}), vOuterExtensions([]uint16{10}))
@@ -162,6 +171,12 @@ func verifC04Rules() {
 				outer.exts = append(append([]vExt{}, outer.exts[:echIdx-4]...), outer.exts[echIdx-3:]...)
 				echIdx--
 			}
+		}
+		if sealIt && moveECH {
+			// (seed C04j) the outer hello ends with extension 13, the ECH extension sits before
+			// it: a faulty reference that follows a reference to the last outer extension
+			outer.exts[echIdx-1], outer.exts[echIdx] = outer.exts[echIdx], outer.exts[echIdx-1]
+			echIdx--
 		}
 		if sealIt {
 			s := vSeal(k, 1, 1, outer, echIdx, vCat(vEncodeInner(inner, 0), pad))
